@@ -396,7 +396,25 @@ impl C19 {
                 json!({"input": input(), "observed": format!("{:?} -> {:?}", got.src_type(), got.tgt_type()), "expected": format!("{:?} -> {:?}", strict_in.src_type(), strict_in.tgt_type())})
             });
             if ty_ok {
-                expect_iso(ctx, api, "replaces-exactly-uniform-var-edges", class, &got, &want, &input);
+                // the 1->1-only variant: whether it also drops variable hyperedges without any incident node ("or the
+                // empty diagram" in its documentation) is left open -- either model is accepted
+                let has_legless = strict_in.e.iter().any(|e| e.l == VOp::Var && e.s.is_empty() && e.t.is_empty());
+                if mono && has_legless {
+                    let mut alt = want.clone();
+                    alt.e.retain(|e| !(e.l == VOp::Var && e.s.is_empty() && e.t.is_empty()));
+                    let (r1, _) = crate::iso::iso_budget(&got, &want, crate::iso::DEFAULT_BUDGET);
+                    let (r2, _) = crate::iso::iso_budget(&got, &alt, crate::iso::DEFAULT_BUDGET);
+                    ctx.count("iso:searches");
+                    let ok = matches!(r1, crate::iso::Iso::Yes) || matches!(r2, crate::iso::Iso::Yes);
+                    let budget = matches!(r1, crate::iso::Iso::Budget) || matches!(r2, crate::iso::Iso::Budget);
+                    if budget && !ok {
+                        ctx.count("iso:budget_exhausted");
+                    } else {
+                        ctx.check(ok, &format!("{}/replaces-exactly-uniform-var-edges/value/{}", api, class), || json!({"input": input(), "observed": show(&got), "expected_up_to_iso": show(&want), "or": show(&alt)}));
+                    }
+                } else {
+                    expect_iso(ctx, api, "replaces-exactly-uniform-var-edges", class, &got, &want, &input);
+                }
             }
             if evaluate {
                 // same function as the original with var hyperedges read as copies
@@ -425,7 +443,11 @@ impl C19 {
         };
         if p.leak && !(p.input_labels.is_empty() && p.stmts.is_empty()) {
             ctx.class("leaked_handle");
-            ctx.check(built.is_err(), "build/fails-iff-handle-leaked/value/leaked", || json!({"input": input(), "observed": "Ok", "expected": "Err(shared state): a Var clone outlived the builder"}));
+            // the statement: building fails *only when* a handle outlives the builder. Failing here is therefore
+            // allowed (and is what today's builder does); succeeding would be too and is judged like any other build
+            ctx.count(if built.is_err() { "observed:leak_makes_build_fail" } else { "observed:leak_tolerated" });
+        }
+        if p.leak && !(p.input_labels.is_empty() && p.stmts.is_empty()) && built.is_err() {
             // the state handed back must still be the term that was built (one hyperedge per applied operator)
             if let Err(state) = built {
                 let plain = from_lax_raw(&state.borrow());
@@ -435,7 +457,7 @@ impl C19 {
                 let mut b: Vec<VOp> = applied.iter().map(|(o, _)| o.clone()).collect();
                 a.sort();
                 b.sort();
-                ctx.check(a == b && plain.s.len() == p.input_labels.len() && plain.t.len() == p.outputs.len(), "build/failure-hands-back-the-shared-state/value/leaked", || {
+                ctx.check(a == b, "build/failure-hands-back-the-shared-state/value/leaked", || {
                     json!({"input": input(), "observed_state": show_lax(&plain), "expected_operators": format!("{:?}", b)})
                 });
             }
@@ -588,8 +610,8 @@ impl Monitor for C19 {
         "cases: hostile corpus of lax terms with variable-labelled hyperedges (no sources + differently labelled targets, no legs, sources only, 1->1 uniform/mixed, 2->3 \
          with shared nodes, first target differing, source differing from targets), then (a) seeded straight-line programs over Var::new, the operator overloads (+ - * / ^ & | \
          << >> unary - !), operation and fn_operation with arbitrary sharing, variables used 0-4 times, multi-output operations, and a handle-leaking variant; (b) arbitrary lax \
-         terms with var hyperedges of arity m->n (m,n in 0..3) over 1-3 node labels, sometimes with label-consistent pending unifications. Oracle for build: Ok unless a handle \
-         leaked; one non-var hyperedge per applied operator (label multiset), interface types in order, eval of the term (var edges read as \
+         terms with var hyperedges of arity m->n (m,n in 0..3) over 1-3 node labels, sometimes with label-consistent pending unifications. Oracle for build: Err only if a handle \
+         leaked (then the state handed back still holds the applied operators); one non-var hyperedge per applied operator (label multiset), interface types in order, eval of the term (var edges read as \
          copies, callback log compared as a multiset with the operators' reference inputs) equals direct evaluation of the program on random u64 inputs. Oracle for forget / \
          forget_monogamous: returns; well-formed; same type; isomorphic to model substitution replacing exactly the label-uniform (resp. uniform 1->1) var hyperedges by one \
          merged node; for var-built terms evaluates to the same function. non-trivial = program with a shared variable or a term with a non-uniform var hyperedge; distinct = hash \
